@@ -293,6 +293,8 @@ func K9() *Entry {
 		"Owner":          {{Name: "owner_rank", Type: "github.com/hashicorp/terraform-plugin-framework/types.Int64Type", Optional: true}},
 		"User.Spec.Meta": {{Name: "spec_meta_note", Type: "github.com/hashicorp/terraform-plugin-framework/types.StringType", Optional: true, Computed: true, PlanModifiers: []string{USFU}}},
 	}
+	// a custom type addressed by full path at one of several occurrences of the message type
+	c.CustomTypes = map[string]string{"User.Backup.Name": "verif/types.Joined"}
 	// computed fields with and without explicit plan modifiers while UseStateForUnknown is the default
 	c.UseStateForUnknown = true
 	c.ComputedFields = []string{"User.Title", "Meta.Revision", "User.Spec.Level"}
